@@ -24,6 +24,8 @@ package coresim
 //   c18_waitdead {timeout_ms}                  wait until the master has no non-terminal task
 //   c18_waitorphans {timeout_ms}               wait until the master has no non-terminal task outside the core's roster
 //   c18_ungate_keep {point}                    a gated hook point lets later arrivals pass, who is parked there stays
+//   c18_errorevent                             the master sends an ERROR event on the scheduler stream(s)
+//   c18_cleanupids {env}                       gRPC CleanupTasks naming the tasks of that environment
 //   c18_delfid                                 delete the stored framework id (fresh installation)
 //
 // Points: "RECONCILE", "REVIVE", "ACCEPT" (an ACCEPT call launching at least one task), "MESSAGE:CONFIGURE",
@@ -468,6 +470,36 @@ func init() {
 		}
 		sort.Strings(orphans)
 		r.Emit("Orphans", "alive", append([]string{}, orphans...), "ok", ok)
+	}
+	// c18_errorevent: the master sends an ERROR event on the event stream of every subscribed framework (the stream itself
+	// stays: the scheduler library gives the subscription up on its own and subscribes again)
+	ExtraSteps["c18_errorevent"] = func(r *Runner, st *Step, ctx context.Context) {
+		for _, fw := range r.Master.Frameworks() {
+			r.Emit("MErrorEvent", "fw", fw)
+			r.Master.send(fw, &scheduler.Event{Type: scheduler.Event_ERROR, Error: &scheduler.Event_Error{Message: "injected: framework error"}})
+		}
+	}
+	// c18_cleanupids {env}: gRPC CleanupTasks with the explicit list of the tasks of that environment
+	ExtraSteps["c18_cleanupids"] = func(r *Runner, st *Step, ctx context.Context) {
+		ids := []string{}
+		if rep, err := r.Client.GetEnvironment(ctx, &pb.GetEnvironmentRequest{Id: r.EnvID(st.Env)}); err == nil && rep.Environment != nil {
+			for _, t := range rep.Environment.Tasks {
+				ids = append(ids, t.TaskId)
+			}
+		}
+		r.Emit("Api", "call", "cleanupids", "env", st.Env, "n", len(ids))
+		rep, err := r.Client.CleanupTasks(ctx, &pb.CleanupTasksRequest{TaskIds: ids})
+		killed := []string{}
+		if rep != nil {
+			for _, t := range rep.KilledTasks {
+				killed = append(killed, r.TaskAlias(t.TaskId))
+			}
+		}
+		code := "OK"
+		if err != nil {
+			code = "ERR"
+		}
+		r.Emit("ApiReply", "call", "cleanupids", "env", st.Env, "code", code, "killed", killed, "n", len(ids))
 	}
 	ExtraSteps["c18_delfid"] = func(r *Runner, st *Step, ctx context.Context) {
 		req, _ := http.NewRequestWithContext(ctx, http.MethodDelete, "http://"+r.Consul.Addr()+"/v1/kv/"+c18FidKey, nil)
